@@ -7,11 +7,11 @@ from pid.go by go2lean equals `backoff` on every int64 triple).
 namespace GoaktVerif.Model.C08
 
 /-- `backoffDelay(faults, initialDelay, maxDelay)`, statement by statement:
-    disabled / no fault ⇒ 0; early cap at shift ≥ 62; `initial > max >> shift` ⇒ max;
+    disabled / no fault ⇒ 0; early cap at shift ≥ 63; `initial > max >> shift` ⇒ max;
     otherwise `initial << shift` -/
 def backoff (n i m : Int) : Int :=
   if i ≤ 0 ∨ n < 1 then 0
-  else if n - 1 ≥ 62 then m
+  else if n - 1 ≥ 63 then m
   else if i > m / 2 ^ (n - 1).toNat then m
   else i * 2 ^ (n - 1).toNat
 
